@@ -72,6 +72,8 @@ def confirm(ctx, module, cid, want_class):
     alias = None
     if line is not None and json.loads(line).get("ev") == "codec" and module != "TraceCodec":
         module, alias = "TraceCodec", "C01"        # history-independence cases of C10 are ordinary round trips
+    if getattr(ctx, "relabel", None):
+        alias = "sys"
     if ctx.prop == "C16":                          # C16 is judged through the round-trip / wire / descriptor verdicts of its cases
         ev = json.loads(line).get("ev")
         module, alias = ("TraceCodec", "any") if ev == "codec" else ("TraceDecode", "C03")
@@ -86,7 +88,7 @@ def confirm(ctx, module, cid, want_class):
     for attempt in range(3):
         _, verdicts, _ = judge_file(ctx, module, rp, "confirm%d_%d" % (cid, attempt), budget="30s", workers=1)
         for (i, prop, reason) in verdicts:
-            if alias and i == cid and (prop == alias or (alias == "any" and prop in ("C01", "C02", "C05", "C13"))) and not reason.startswith("known:"):
+            if alias and i == cid and (prop == alias or (alias == "any" and prop in ("C01", "C02", "C05", "C13")) or (alias == "sys" and prop in ("C06", "C10", "C11"))) and not reason.startswith("known:"):
                 return rp
             if i == cid and prop == ctx.prop and not reason.startswith("known:") and reason_class(reason) == want_class:
                 return rp
@@ -306,17 +308,17 @@ def decode_family(ctx, kinds, n_quick, n_thorough, with_codec_sessions=False):
 CAT_RE = re.compile(r'^<<"CATALOGUE", (".*")>>$')
 
 
-def system_family(ctx):
-    """C06 / C11: histories generated from PlencSystem (exhaustive short ones + simulated long ones) replayed and validated by TraceSystem."""
+def system_family(ctx, catname="MCCat", quick_idx="QuickIdx", relabel=None, extra_inv="", sweep=True):
+    """C06 / C11 / C17 / C19: histories generated from PlencSystem (exhaustive short ones + random long ones) replayed and validated by TraceSystem."""
     ctx.build()
-    base = "  Env <- MCEnv\n  Cat <- MCCat\n  GenIdx <- %s\n" % ("QuickIdx" if ctx.quick else "AllIdx")
+    base = "  Env <- MCEnv\n  Cat <- %s\n  GenIdx <- %s\n" % (catname, quick_idx if ctx.quick else "AllIdx")
     # 1. design check: deeper, fingerprinting only the observable state (VIEW), action properties
     depth = 4 if ctx.quick else 5
     cfg = ("CONSTANTS\n%s  Bufs = {\"b1\"}\n  MaxSteps = %d\n  Emit = FALSE\nSPECIFICATION SysSpec\nVIEW View\n"
-           "INVARIANTS FreshIndependent\nPROPERTIES AppendOnly FrameVars FrameBufs FrameOther\nCHECK_DEADLOCK FALSE\n" % (base, depth))
+           "INVARIANTS FreshIndependent %s\nPROPERTIES AppendOnly FrameVars FrameBufs FrameOther\nCHECK_DEADLOCK FALSE\n" % (base, depth, extra_inv))
     out, st = vlib.tlc(ctx.work, "MCSystem", cfg, workers=vlib.NCPU, timeout=1500, heap="8g")
     if "is violated" in out or "Error:" in out or st["rc"] != 0:
-        raise Broken("design check MCSystem failed:\n" + "\n".join(l[:300] for l in out.splitlines() if "CASE" not in l)[-3000:])
+        raise Broken("design check MCSystem failed:\n" + vlib.tlc_brief(out))
     ctx.add_mc(st)
     cat = None
     for line in out.splitlines():
@@ -337,7 +339,7 @@ def system_family(ctx):
     log("MCSystem: design %d states; %d exhaustive histories; %d random histories" % (st["distinct"], len(cases), nsim))
     sim = []
     # 4. capacity sweep: every spare capacity 0..460 x prefix {0, 3 bytes} for every item, then a second marshal into the grown buffer
-    for i in range(1, len(cat) + 1):
+    for i in (range(1, len(cat) + 1) if sweep else []):
         for pre in ([], [1, 2, 3]):
             for spare in (range(0, 461) if i >= 12 or not ctx.quick else list(range(0, 40)) + [63, 64, 65, 127, 128, 129]):
                 sim.append({"ev": "hist", "steps": [
@@ -360,6 +362,9 @@ def system_family(ctx):
     ctx.judge_kw = dict(extra_consts='  CatFile = "%s"\n  Cat <- CatLit\n  Bufs = {"b1", "b2"}\n  MaxSteps = 100\n  GenIdx <- AllIdx\n' % catp,
                         defs="CatLit == " + vlib.tla_literal(cat))
     verdicts, jst = vlib.judge(ctx.work, "TraceSystem", trace, ctx.env, ctx.open, tag="main", **ctx.judge_kw)
+    if relabel:
+        verdicts = [(i, relabel, p + ":" + r) for (i, p, r) in verdicts]
+        ctx.relabel = relabel
     rule = ("histories of API calls (newbuf with prefix {0,1,3 bytes} x spare capacity {0,1,64}; marshal by pointer / by value; marshal into data[:0]; "
             "unmarshal; scribble; fresh variable) over a catalogue of %d (type, value) items incl. values that encode to nothing and pointer-shaped "
             "by-value shapes: all %d histories of length 3 on one buffer + %d random histories of 6..12 calls on two buffers. One TLC state per call; "
@@ -378,7 +383,7 @@ def plan_C04(ctx):
     cfg = "CONSTANTS\n  Env <- MCEnv\n  MaxLen = %d\n  Emit = TRUE\nSPECIFICATION Spec\nINVARIANTS WalkProgress DecodeTotal SkipBounded EmitCase\nCHECK_DEADLOCK FALSE\n" % maxlen
     out, st = vlib.tlc(ctx.work, "MCHostile", cfg, workers=vlib.NCPU, timeout=2400, heap="8g")
     if "is violated" in out or "Error:" in out or st["rc"] != 0:
-        raise Broken("design check MCHostile failed:\n" + "\n".join(l[:300] for l in out.splitlines() if "CASE" not in l)[-3000:])
+        raise Broken("design check MCHostile failed:\n" + vlib.tlc_brief(out))
     ctx.add_mc(st)
     strings, targets = [], None
     for line in out.splitlines():
@@ -556,6 +561,10 @@ def plan_C15(ctx):
         "for strings that are not valid UTF-8 only validity of the document is required"])
 
 
+def plan_C17(ctx):
+    return system_family(ctx, catname="MCCat17", quick_idx="Quick17", relabel="C17", extra_inv="ScopedDiffer", sweep=False)
+
+
 def plan_C06(ctx):
     return system_family(ctx)
 
@@ -605,11 +614,11 @@ def plan_C12(ctx):
     return codec_family(ctx, 6000, 200000, mc_cfgs_quick=("both", "pa"), rnd_cfg="mix")
 
 
-PLANS = {"C16": plan_C16, "C13": plan_C13, "C15": plan_C15, "C08": plan_C08, "C04": plan_C04, "C06": plan_C06, "C11": plan_C11, "C03": plan_C03, "C10": plan_C10, "C18": plan_C18, "C12": plan_C12, "C01": plan_C01, "C02": plan_C02, "C05": plan_C05, "C09": plan_C09, "C14": plan_C14}
+PLANS = {"C17": plan_C17, "C16": plan_C16, "C13": plan_C13, "C15": plan_C15, "C08": plan_C08, "C04": plan_C04, "C06": plan_C06, "C11": plan_C11, "C03": plan_C03, "C10": plan_C10, "C18": plan_C18, "C12": plan_C12, "C01": plan_C01, "C02": plan_C02, "C05": plan_C05, "C09": plan_C09, "C14": plan_C14}
 MODULES = {k: "TraceCodec" for k in PLANS}
 MODULES["C18"] = "TracePrim"
 MODULES["C03"] = MODULES["C10"] = "TraceDecode"
-MODULES["C06"] = MODULES["C11"] = "TraceSystem"
+MODULES["C06"] = MODULES["C11"] = MODULES["C17"] = MODULES["C19"] = "TraceSystem"
 MODULES["C04"] = "TraceHostile"
 MODULES["C08"] = "TraceTypes"
 MODULES["C15"] = "TraceJSONOut"
